@@ -46,14 +46,16 @@ Definition scalar_ok (s : scalar) (cs : list chan) : bool :=
   | SMap m => nodupb (dkeys m) && forallb (fun c => memb c cs) (dkeys m)   (* ValueError otherwise (constructor) *)
   end.
 
-(* What the constructors guarantee:
+(* What the constructors guarantee (one clause is a domain restriction instead, see ForLoopPT):
    - channel identifiers of a template are a set (Python dict/set)                          [nodupb (channels p)]
      (for MappingPT: the channel mapping is injective on the kept channels; for AtomicMultiChannelPT: the
       sub-templates have disjoint channels; both are constructor checks)
    - table channels / point pulses have at least one entry; a point pulse has at least one channel
    - FunctionPT / ParallelChannelPT coefficient expressions do not mention t (the polynomial is written out in t)
    - SequencePT: all sub-templates define the same channels
-   - ForLoopPT: the loop index does not occur in the range (InvalidParameterNameException)
+   - ForLoopPT: the loop index does not occur in the range.  NOT enforced by the constructor (round-3 comment corrected
+     in round 5): a range naming its own index is legal in the code; it is excluded from the theorems' domain here
+     (Model.loop_sum would capture) and judged by the harness' Python oracle only
    - ParallelChannelPT: time dependent values only over an atomic template (TypeError)
    - ArithmeticPT: a scalar mapping only mentions channels of the template (ValueError); scalar / template is
      not allowed (ValueError) *)
